@@ -74,6 +74,8 @@ type Dgram struct {
 	DstIP   [4]byte
 	DstPort int
 	IfIndex int // arrival / egress interface
+
+	sender *udpSock // the local socket that sent it (nil for datagrams from remote hosts)
 }
 
 type mship struct {
@@ -104,6 +106,7 @@ type udpSock struct {
 	queue       []Dgram
 	queueCap    int
 	spurious    bool
+	pendingErr  syscall.Errno // asynchronous socket error (a connected socket's datagram met a closed port: ICMP port unreachable)
 	sendBlocked bool
 
 	members   []mship
@@ -121,6 +124,7 @@ var (
 	statUDPFiltered = RegStat("probe:udp-multicast-filtered")
 	statUDPMcastDel = RegStat("probe:udp-multicast-delivered")
 	statUDPSpurious = RegStat("probe:udp-spurious-readable")
+	statUDPRefused  = RegStat("probe:udp-port-unreachable-reported-to-connected-sender")
 )
 
 func (k *Kernel) newUDP(f *file) *udpSock {
@@ -483,6 +487,12 @@ func (k *Kernel) arrive(d Dgram) {
 		}
 	}
 	if len(targets) == 0 {
+		if !mc && d.sender != nil && d.sender.connected && !d.sender.f.closed {
+			// the host answers with ICMP port unreachable: a connected sender learns of it as a socket error
+			d.sender.pendingErr = syscall.ECONNREFUSED
+			w.Stat(statUDPRefused)
+			w.Tracef("udp id=%d port unreachable -> socket error at fd=%d", d.ID, d.sender.f.fd)
+		}
 		if mc {
 			w.Stat(statUDPFiltered)
 		}
@@ -550,6 +560,12 @@ func (k *Kernel) UDPSpurious(fd int) {
 
 func (k *Kernel) recvfrom(f *file, p []byte) (int, *Dgram, syscall.Errno) {
 	u := f.udp
+	if u.pendingErr != 0 {
+		// the socket error is reported before anything is dequeued, once
+		e := u.pendingErr
+		u.pendingErr = 0
+		return -1, nil, e
+	}
 	if len(u.queue) == 0 {
 		u.spurious = false
 		return -1, nil, syscall.EAGAIN
@@ -618,6 +634,11 @@ func (k *Kernel) sendto(f *file, p []byte, ip [4]byte, port int) syscall.Errno {
 	if len(p) > 65507 {
 		return syscall.EMSGSIZE
 	}
+	if u.pendingErr != 0 {
+		e := u.pendingErr
+		u.pendingErr = 0
+		return e
+	}
 	if !u.bound {
 		k.nextPort++
 		u.bound, u.port = true, k.nextPort
@@ -626,7 +647,7 @@ func (k *Kernel) sendto(f *file, p []byte, ip [4]byte, port int) syscall.Errno {
 	if ip == ([4]byte{}) {
 		ip = [4]byte{127, 0, 0, 1} // ip_route_output: a zero destination means this host
 	}
-	d := Dgram{Data: append([]byte(nil), p...), DstIP: ip, DstPort: port, SrcPort: u.port}
+	d := Dgram{Data: append([]byte(nil), p...), DstIP: ip, DstPort: port, SrcPort: u.port, sender: u}
 	var out *Iface
 	if isMulticast(ip) {
 		if u.mcastIf != ([4]byte{}) {
@@ -693,6 +714,14 @@ func (k *Kernel) Sendto(fd int, p []byte, ip [4]byte, port int) syscall.Errno {
 		w.Stat(statEagainW)
 	}
 	return e
+}
+
+// UDPErrorPending: an asynchronous socket error is waiting to be reported.
+func (k *Kernel) UDPErrorPending(fd int) bool {
+	if f := k.get(fd); f != nil && f.kind == fkUDP {
+		return f.udp.pendingErr != 0
+	}
+	return false
 }
 
 // UDPQueued returns the number of datagrams waiting at the socket.
